@@ -71,7 +71,7 @@ InEnvelope(I, rt, armed) == LET b == Base(I, rt) IN armed >= b /\ armed - b <= r
 
 \* ---------------------------------------------------------------- cadence monitors over a run
 \* c = [mn, mx, segs]; one MonStep per round with (pollTime, progress, request time, period until the next poll)
-MonInit == [p1 |-> -1, w1 |-> 0, r1 |-> 0, p2 |-> -1, w2 |-> 0, r2 |-> 0, seg |-> -1, rs |-> 0, inb |-> 0, certs |-> 0, viol |-> {}]
+MonInit == [p1 |-> -1, w1 |-> 0, r1 |-> 0, p2 |-> -1, w2 |-> 0, r2 |-> 0, seg |-> -1, rs |-> 0, inb |-> 0, certs |-> 0, win |-> 0, viol |-> {}]
 MonStep(m, c, t, pr, rt, w) ==
   LET sg == SegAt(c.segs, t)
       T == IF sg = 0 THEN 0 ELSE c.segs[sg].T
@@ -88,6 +88,7 @@ MonStep(m, c, t, pr, rt, w) ==
                /\ (m.p2 = 0 /\ m.p1 = 0 /\ pr = 0) => (w > m.w2 - m.r2 \/ m.w2 >= c.mx)
   IN [p1 |-> pr, w1 |-> w, r1 |-> rt, p2 |-> m.p1, w2 |-> m.w1, r2 |-> m.r1, seg |-> sg,
       rs |-> IF complete THEN SettleN ELSE rs1, inb |-> IF complete THEN 0 ELSE inb1, certs |-> IF complete THEN 0 ELSE certs1,
+      win |-> IF complete THEN m.win + 1 ELSE m.win,   \* settle windows judged so far (vacuity guard)
       viol |-> (IF complete /\ ~settles THEN {"Settles"} ELSE {}) \cup (IF shrinks THEN {} ELSE {"Shrinks"})
                \cup (IF backs THEN {} ELSE {"BacksOff"})]
 =============================================================================
